@@ -731,3 +731,35 @@ func init() {
 		return Struct{[]Value{ex.newBig(prod)}}
 	}
 }
+
+func init() {
+	// prefix.Store.Iterator(nil, nil) / ReverseIterator(nil, nil) over the harness store: select by key prefix
+	// directly instead of computing PrefixEndBytes (which forks on every symbolic 0xff byte); same key set.
+	pfx := "github.com/cosmos/cosmos-sdk/store/prefix"
+	mk := func(asc bool, orig string) intrinsic {
+		return func(ex *Exec, a []Value, fr *Frame) Value {
+			st := a[0].(Struct)
+			start, end := a[1].(Slice), a[2].(Slice)
+			pT := ex.namedType(pfx, "Store")
+			parent := st.F[fieldIndex(pT, "parent")].(Iface)
+			prefix := st.F[fieldIndex(pT, "prefix")]
+			isVrt := parent.T != nil && isNamed(parent.T, vrtPkg, "Store")
+			if !isVrt || start.P.O != nil || end.P.O != nil || start.Len != 0 || end.Len != 0 {
+				// fall back to the SDK code
+				fn := ex.prog.ImportedPackage(pfx).Prog.FuncValue(nil)
+				_ = fn
+				panic(engineErr("prefix.Store iterator with explicit bounds or a foreign parent store"))
+			}
+			mset := ex.prog.MethodSets.MethodSet(parent.T)
+			sel := mset.Lookup(nil, "PrefixIter")
+			if sel == nil {
+				panic(engineErr("vrt.Store.PrefixIter not found"))
+			}
+			it := ex.call(ex.prog.MethodValue(sel), []Value{parent.V, prefix, BoolV{ex.tf.Bool(asc)}}, 3, nil, fr)
+			ex.noteAssumption("prefix.Store.Iterator(nil,nil) is evaluated as 'all keys with the prefix, prefix stripped' (equal to the SDK's [prefix, PrefixEndBytes(prefix)) range)")
+			return Iface{T: types.NewPointer(ex.namedType(vrtPkg, "Iter")), V: it}
+		}
+	}
+	intrinsics["("+pfx+".Store).Iterator"] = mk(true, "Iterator")
+	intrinsics["("+pfx+".Store).ReverseIterator"] = mk(false, "ReverseIterator")
+}
